@@ -8,17 +8,28 @@ CFG = dict(
     gens=["gen_units:generate"],
     level="proof",
     trusted_base=QTY_TRUSTED + [
-        "the static typing relation HasDim (Lemmas/QtyDim.lean) is a hand-written model of numbat's checker for the "
-        "expression fragment (numbers with the polymorphic zero, units, + - * / neg, powers with constant rational "
-        "exponents) over dimension vectors indexed by base units; numbat's checker works over base dimensions — the "
-        "harness checks on every run that base units and base dimensions correspond one-to-one",
-        "functions, where-clauses, conditionals, structs and lists are outside the Lean model; for them the claim rests "
-        "on the implementation oracle (raw value of every global vs reported static type) over generated programs",
+        "the static typing relations HasDim (Lemmas/QtyDim.lean, expression fragment) and HasTy/ProgOK (Lemmas/QtyProg.lean, "
+        "program fragment) are hand-written models of numbat's checker over dimension vectors indexed by base units; "
+        "numbat's checker works over base dimensions — the harness checks on every run that base units and base "
+        "dimensions correspond one-to-one. The typing relations are monomorphic: every global, parameter and function "
+        "result has one dimension (generic functions are instantiated per program)",
+        "Model/QtyProg.lean (evalP, evalArgs, runProg) is a hand-written model of what the compiler and the VM do for "
+        "the fragment (one opcode per operator, strict && and ||, lazy conditional, arguments left to right, raw values "
+        "of globals); it is tied to the code by the `mprog` stream: generated programs of the fragment run definition "
+        "by definition on the real interpreter, raw value of every new global compared bit for bit",
+        "generic/inferred polymorphism itself, where-clauses, structs and lists are outside the Lean model; for them "
+        "the claim rests on the implementation oracle (raw value of every global vs reported static type) over generated programs",
     ],
     assumptions=[
         "NamesDistinct: distinct rows of the unit table have distinct names (kernel-checked on the regenerated prelude "
         "table: Oblig/UnitTable.unitNames_nodup); it yields ConvComplete (Lemmas/QtyCanon.convComplete)",
         "a zero value is exempt from the unit check (the polymorphic zero carries no unit)",
+        "the theorems are over exact arithmetic (a lawful field: no NaN, no infinity); where the Float run differs "
+        "in kind, the check reports it (known finding C01-zero-nonfinite: `0 * NaN` is not a zero)",
+        "the target of a conversion is a unit expression (known finding C01-convert-to-zero: `1 m -> 0` is accepted "
+        "and fails at run time)",
+        "program_soundness is stated for every fuel of the model's evaluator; `out of fuel` (a non-terminating "
+        "recursion) is an outcome of the model only",
         "FFI functions are trusted to return what their declared signature says; `parse` and `quantity_cast` are not generated",
         "known findings: composite non-integer exponents (`(m^2)^(0.1+0.2)`: static exponent 3/10, run-time exponent "
         "Rational::from_f64(0.30000000000000004)) and the polymorphic `inf`/`NaN` literals (`inf + 1 m`)",
@@ -26,22 +37,30 @@ CFG = dict(
 )
 
 CLAIM = dict(
-    text="Theorems (Props/C01.lean) for the expression fragment: soundness_partial — for every expression typed by "
-         "the static relation HasDim (numbers incl. the polymorphic zero, units with prefixes, + - * / negation, powers "
-         "with constant rational exponents), evaluation by the VM's quantity operations yields a value whose unit has "
-         "the static dimension vector (or is a zero), or fails with a division by zero; no_incompatible_units — it "
-         "never fails with a unit incompatibility; soundness — the same for every unit table with distinct unit names, "
-         "because conversions between units of equal dimension vector succeed (convComplete: sorting by name, merging "
-         "and dropping zero exponents yields a canonical form that is unique for a given exponent vector; about 500 "
-         "lines, Lemmas/QtyCanon.lean); the prelude table satisfies the hypotheses (Oblig/UnitTable). The rest of the property "
-         "(functions incl. generic and inferred ones, where-clauses, conditionals, structs, lists, unit and dimension "
+    text="Theorems (Props/C01.lean). (1) Expression fragment: soundness_partial / soundness / no_incompatible_units — "
+         "for every expression typed by HasDim (numbers incl. the polymorphic zero, units with prefixes, + - * / "
+         "negation, powers with constant rational exponents), evaluation by the VM's quantity operations yields a "
+         "value whose unit has the static dimension vector (or is a zero), or fails with a division by zero, never "
+         "with a unit incompatibility; for every unit table with distinct unit names, because conversions between "
+         "units of equal dimension vector succeed (convComplete, Lemmas/QtyCanon.lean); the prelude table satisfies "
+         "the hypotheses (Oblig/UnitTable). (2) Program fragment: expr_soundness / program_soundness / "
+         "program_soundness_closed / program_no_incompatible — for every sequence of `let` and `fn` definitions typed "
+         "by ProgOK (expressions as in (1) plus earlier globals, parameters, conversions `a -> unit expression`, the "
+         "six comparisons, && || !, boolean literals, if-then-else, and calls of first-order — possibly recursive — "
+         "user functions), running it with the model of the compiler+VM (evalP/runProg, any fuel) from a session that "
+         "satisfies the invariant ends in a session in which every global agrees with its static type and every "
+         "function is checked, or fails with a division by zero (or the model's fuel runs out); never with a unit "
+         "incompatibility, never with an operand of the wrong kind. The model is tied to the code by the `mprog` "
+         "stream (bit-exact raw values of all globals of generated programs of the fragment). The rest of the "
+         "property (generic and inferred polymorphism as such, where-clauses, structs, lists, unit and dimension "
          "definitions) is checked on the real interpreter: generated type-directed programs, the raw value of every "
-         "global — recursively through struct fields and list elements — against the static type the checker reports, "
-         "and the kind of every run-time failure.",
+         "global — recursively through struct fields and list elements — against the static type the checker "
+         "reports, and the kind of every run-time failure.",
     design_ref="DESIGN.md section 5 C01",
-    note="Partial: the theorems cover the expression fragment; statements about functions, "
-         "structs and lists are exploration-level (implementation oracle over generated programs). Two genuine defects "
-         "are recorded as known findings (composite non-integer exponents; polymorphic inf/NaN); the zero-on-the-left "
-         "comparison defect was repaired.",
-    technique="Lean 4 proof (induction over typing derivations) for the expression fragment + implementation oracle over generated programs + bit-exact correspondence of base representations",
+    note="Partial: the theorems cover the monomorphic program fragment over exact arithmetic; polymorphism, structs and "
+         "lists are exploration-level (implementation oracle over generated programs). Proving the conversion rule and "
+         "running the fragment on the interpreter exposed two more genuine defects (C01-convert-to-zero: `1 m -> 0`; "
+         "C01-zero-nonfinite: a polymorphic zero times NaN), recorded as known findings next to the composite "
+         "non-integer exponents and the polymorphic inf/NaN; the zero-on-the-left comparison defect was repaired.",
+    technique="Lean 4 proof (induction over typing derivations / over the evaluator's fuel) for the expression and program fragments + bit-exact correspondence of the compiled model with the real interpreter on generated programs + implementation oracle over generated programs",
 )
